@@ -124,6 +124,10 @@ def classify(R, rig, tracker, exc, mark):
                 return "flush-order-" + tk[-1][0], f"{tk[-1][2]} :: {last}"
             return f"flush-fk-violation-{verb.lower()}", f"{msg} :: {last}"
         return "flush-integrity-error-other", f"{msg} :: {last}"
+    if isinstance(exc, sa.exc.DBAPIError) and "LoaderCallableStatus" in str(exc):
+        # a DELETE whose primary-key parameter is the NO_VALUE symbol: the flush registered a
+        # pending object (no row, no key) for deletion
+        return "flush-deletes-pending-object-reached-by-delete-cascade", f"{str(exc).splitlines()[0][:160]} :: {last}"
     if isinstance(exc, sa.exc.CircularDependencyError):
         return "circular-dependency-on-valid-final-state", str(exc)[:300]
     return f"flush-raised-{name}", str(exc)[:300]
@@ -316,6 +320,11 @@ PROBES = {
         ["new", "Folder", 0, {"name": "f"}, {}], ["new", "Note", 1, {"text": "n1"}, {}], ["new", "Note", 2, {"text": "n2"}, {}],
         ["repl", 0, "notes", [1, 2]], ["new", "Note", 3, {"text": "n3"}, {}], ["new", "Mark", 4, {"score": 1}, {}], ["app", 2, "marks", 4],
         ["commit"], ["expall"], ["touch", 0, "notes"], ["set", 3, "text", "x"], ["set", 1, "text", "y"], ["rem", 0, "notes", 2],
+    ],
+    # a persistent delete-orphan child is orphaned while a *pending* grandchild hangs on it
+    "orphan-with-pending-grandchild": [
+        ["new", "Draft", 0, {"title": "d"}, {}], ["new", "Note", 1, {"text": "n"}, {}], ["app", 0, "notes", 1], ["commit"],
+        ["touch", 0, "notes"], ["touch", 1, "marks"], ["new", "Mark", 2, {"score": 1}, {}], ["app", 1, "marks", 2], ["rem", 0, "notes", 1],
     ],
     "joined-inheritance-delete-manager-reassign": [
         ["new", "Manager", 0, {"name": "m0", "budget": 1}, {}], ["new", "Manager", 1, {"name": "m1", "budget": 2}, {}],
